@@ -41,6 +41,10 @@ type Config struct {
 	Threads       int       `json:"threads"`
 	AllowLocalhop bool      `json:"allow_localhop"`
 	Faces         []FaceCfg `json:"faces"` // application faces; ids 2.. in order (1 is the internal face)
+	// NoCache: the forwarder is configured not to serve from its content store. Only then can requests follow each
+	// other within a dataset's freshness period (1 s) and still have to show the current tables (Op.GapMs); with the
+	// cache on, the harness lets 5 s pass after every step so that no cached response can answer.
+	NoCache bool `json:"no_cache,omitempty"`
 }
 
 type Params struct {
@@ -74,6 +78,7 @@ type Op struct {
 	Garble  int    `json:"garble,omitempty"`    // >0: ControlParameters bytes corrupted (truncated to Garble-1 bytes / flipped)
 	NextHop bool   `json:"nexthop,omitempty"`   // LpPacket carries NextHopFaceId = internal face
 	Name    string `json:"name,omitempty"`      // traffic: Interest name
+	GapMs   int    `json:"gap_ms,omitempty"`    // NoCache only: simulated time that passes after this step (0 = 5000)
 }
 
 type Engine struct{}
@@ -94,6 +99,7 @@ func (Engine) Generate(prop string, r *kit.Rand, tier string) *kit.Scenario[Conf
 	c.Fib = kit.Pick(r, []string{"nametree", "hashtable"})
 	c.Threads = kit.Pick(r, []int{1, 1, 2})
 	c.AllowLocalhop = r.Chance(0.4)
+	c.NoCache = r.Chance(0.3)
 	nf := r.Range(2, 5)
 	for i := 0; i < nf; i++ {
 		f := FaceCfg{Scope: "local", LocalFields: r.Chance(0.4)}
@@ -225,6 +231,9 @@ func (Engine) Generate(prop string, r *kit.Rand, tier string) *kit.Scenario[Conf
 			if r.Chance(0.04) {
 				o.P.NoName = true
 			}
+		}
+		if c.NoCache && r.Chance(0.6) {
+			o.GapMs = kit.Pick(r, []int{1, 100, 500, 999, 1001, 3000})
 		}
 		sc.Ops = append(sc.Ops, o)
 	}
@@ -476,6 +485,9 @@ func (r *runner) setup() {
 	cfg.Fw.Threads = c.Threads
 	cfg.Mgmt.AllowLocalhop = c.AllowLocalhop
 	cfg.Tables.Rib.ReadvertiseNlsr = false
+	if c.NoCache {
+		cfg.Tables.ContentStore.Serve = false
+	}
 	cfg.Tables.Fib.Algorithm = c.Fib
 	cfg.Faces.CongestionMarking = false
 	core.LoadConfig(cfg, "")
@@ -777,7 +789,11 @@ func (r *runner) run() {
 			break
 		}
 		// let every PIT entry expire and every cached response go stale before the next command
-		time.Sleep(5 * time.Second)
+		gap := 5 * time.Second
+		if c := r.sc.Config; c.NoCache && o.GapMs > 0 {
+			gap = time.Duration(o.GapMs) * time.Millisecond // nothing is served from a cache: a short gap is fine
+		}
+		time.Sleep(gap)
 		synctest.Wait()
 		sd := kit.HashString(r.stateString())
 		r.ctx.State(sd)
